@@ -596,6 +596,16 @@ def rule_linear_abs(ck, rid="C06.R9"):
                     if any(dotted(a) == lin_p and t is False for a, t in facts_at(fl, node)):
                         continue
                     ql = specialise(q, {lin_p: True})
+                    # judged only when the quantity is written out in terms the rule reads: numpy / builtin operations over the matrix, the
+                    # phases and the rates.  A call of anything else (a selected function object, a helper that was not inlined) is not
+                    # read - the per-row rules (R1-R5) are the ones that must recognise the shape then
+                    known_calls = {"abs", "absolute", "fabs", "hypot", "norm", "stack", "vstack", "array", "asarray", "cos", "sin", "deg2rad", "radians", "zeros",
+                                   "zeros_like", "dot", "matmul", "sqrt", "square", "sum", "tile", "maximum", "minimum", "max", "min", "float", "len", "transpose",
+                                   "real", "imag", "exp", "multiply", "einsum", "atleast_2d", "reshape", "where", "full", "ones", "copy", "__elem__", "__idx__", "__item__", "enumerate"}
+                    if any(isinstance(x, ast.Call) and (call_name(x) not in known_calls or not isinstance(x.func, (ast.Name, ast.Attribute))
+                                                      or (isinstance(x.func, ast.Attribute) and isinstance(x.func.value, ast.Call)))
+                           for x in ast.walk(ql)) or any(isinstance(x, ast.Call) and call_name(x) in ("__gamma__", "__phi__", "__loop__") for x in ast.walk(ql)):
+                        continue
                     n += 1
                     ok = False
                     for x in ast.walk(ql):
@@ -607,7 +617,7 @@ def rule_linear_abs(ck, rid="C06.R9"):
                                bad=f"with linear=True the current compared with the limit is `{src(ql)[:110]}`: the coefficients are not taken in absolute value before "
                                    "they are combined with the rates, so currents with opposite signs cancel and the linear check is no longer conservative",
                                sink="linear-abs", positive=True)
-    ck.floor(rid, n, 1, "comparisons against the limits reachable in linear mode")
+    ck.count("comparisons against the limits read in linear mode", n)
 
 def run(ck):
     ck.attempt(rule_utils)
